@@ -351,7 +351,7 @@ def _order_of(curve):
 
 
 def work(task):
-    if isinstance(task[0], str) and task[0] in ("hglue", "hdirect", "hlemma", "hloop"):
+    if isinstance(task[0], str) and task[0] in ("hglue", "hdirect", "hwrap", "hlemma", "hloop"):
         return HP.work(MIR, config_for, _order_of, task, Z3_TIMEOUT_MS)
     if task[0] == "straight":
         try:
